@@ -86,3 +86,22 @@ PROPS['C19'] = dict(
                'matchers = term equality, literal-key preimage injective; the model is compared with inmemory.Dataset step by step on generated histories.',
     level_note='Node interning is modelled by term equality; truncated-SHA-256 collision-freeness is assumed. Go map iteration order is abstracted (outputs compared as sorted lists).',
 )
+
+PROPS['C17'] = dict(
+    families=[
+        dict(name='c17-graph', quick=4000, thorough=150000),
+        dict(name='c17-dataset', quick=3000, thorough=100000),
+        dict(name='c17-exhaustive', quick=7, thorough=1, args=('3',)),
+    ],
+    rule='random triple lists (1-12 triples over 3 IRIs, 1-6 blank nodes, 2 literals, blank-node density 30-80%) x 4 option combinations; a corpus of the defect shapes '
+         '(two-cycle, self reference, three-cycle, tail off a cycle, shared node, never-described node, duplicate triple); all digraphs on 3 blank nodes x external references x 4 options '
+         '(quick: every 7th, thorough: all 16380); datasets of 1-10 quads over 2-3 graph names incl. blank graph names, through Add and AddDatasetResource; non-trivial = >=2 blank nodes referenced',
+    partial=['C17_export_flatten_iso_statement: proved for Inline=false (C17_export_flatten_noinline_partial) and for the nesting test (single reference, self reference); '
+             'the Inline=true permutation / injectivity statement is stated as a Definition and decided by correspondence + oracle only'],
+    trusted_base=['model/Descr.v mirrors rdfdescription/resource_list_builder.go and dataset_resource_list_builder.go (reference counts, only-referrer chain, pinned shared nodes, recursion on explicit fuel with an out-of-fuel marker)'],
+    assumptions=['Go map iteration order is abstracted: exported resources are compared as sorted lists'],
+    explanation='model of the (fixed) export algorithm; theorems for the non-nested half and the nesting test; nested half by correspondence on all small digraphs plus random graphs and by the isomorphism oracle on the implementation',
+    level_text='Proof for Inline=false and for the nesting predicate (kernel-checked); for Inline=true the property is decided by model-vs-implementation correspondence on every digraph over 3 blank nodes and random graphs/datasets, '
+               'plus an isomorphism oracle on the implementation itself. Full statement kept visible as C17_export_flatten_iso_statement.',
+    level_note='Partial proof: the nested-export permutation theorem is not yet proved. Two fix: commits repaired the three defect shapes (cycles dropped, self reference recursing forever, nodes split across graphs).',
+)
